@@ -171,6 +171,29 @@ func ruleI2(p *Prog, r *Report) {
 						if g := staticCallee(c); g != nil && recvName(g) == rn && (strings.HasPrefix(g.Name(), "Next") || g.Name() == "next") {
 							return true
 						}
+						// a private method of the same iterator that steps the counter on every success path of its own
+						if g := staticCallee(c); g != nil && recvName(g) == rn && g.Pkg == p.RootSSA && len(g.Blocks) > 0 && len(g.Params) > 0 && callRecv(c) != nil && sameValue(callRecv(c), recv) {
+							stepsIt := func(z ssa.Instruction) bool {
+								st, ok := z.(*ssa.Store)
+								if !ok {
+									return false
+								}
+								fr, ok := asFieldAddr(st.Addr)
+								if !ok || fr.Field != fld || !sameValue(fr.Base, g.Params[0]) {
+									return false
+								}
+								bo, ok := st.Val.(*ssa.BinOp)
+								if !ok || (bo.Op != token.ADD && bo.Op != token.SUB) {
+									return false
+								}
+								k, isK := constInt(bo.Y)
+								lf, isL := asLoadedField(bo.X)
+								return isK && k == 1 && isL && lf.Field == fld
+							}
+							if successReturnAvoiding(g, nil, stepsIt) == nil {
+								return true
+							}
+						}
 					}
 					if y == ssa.Instruction(ret) {
 						miss = true
